@@ -250,6 +250,15 @@ def main(argv):
     except XError as e:
         return framework(str(e))
 
+    if os.environ.get("XCHECK_SELFTEST"):
+        # self-test of the cross-check: pretend the extracted checker missed a canary and flagged a
+        # clean case; the run must end with XCHECK-MISMATCH / XCHECK-BROKEN
+        cs = sorted(meta.get("canaries") or [])
+        if cs:
+            xres.pop(cs[0], None)
+        clean = next(i for i in range(meta["n_cases"]) if i not in xres and i not in cs)
+        xres[clean] = [2]
+
     # the sample through vm_compute: canaries, everything flagged, the Go oracle's failures, random others
     rng = random.Random(seed * 7919 + 13)
     forced = set(meta.get("canaries") or []) | set(xres) | set(int(k) for k in (meta.get("oracle_failures") or {}))
